@@ -89,3 +89,10 @@ Theorem C13_pivot_over_Z_preserves_TU : forall m n M r c,
   tu_bf m n M = true -> tu_bf m n (pivot_raw m n M r c) = true.
 Proof. exact TuPivot.tu_bf_pivot_raw_std. Qed.
 Print Assumptions C13_pivot_over_Z_preserves_TU.
+
+From Cmr Require RegPivot TuModel.
+Theorem C13_binary_pivot_preserves_regularity : forall m n M r c,
+  wf_mat m n M = true -> is_binary M = true -> (r < m)%nat -> (c < n)%nat -> get M r c = 1 ->
+  TuModel.regular_bf m n (bpivot m n M r c) = TuModel.regular_bf m n M.
+Proof. exact RegPivot.regular_bf_bpivot_lt. Qed.
+Print Assumptions C13_binary_pivot_preserves_regularity.
